@@ -522,6 +522,9 @@ func main() {
 
 	// ---------------------------------------------------------------- curve formulas (translated)
 	translateFormulas(*repo, writeImp)
+
+	// ---------------------------------------------------------------- scalar-field loop code (translated)
+	translateLoops(*repo, writeImp)
 	fmt.Println("extract: ok")
 }
 
